@@ -727,6 +727,8 @@ def replay_e2e(path, data):
     known_ids = {k['id'] for k in _known_with_local(ID)}
     if 'scenario' in info:
         kw = {k: info[k] for k in ('real_compiler', 'compiler', 'cxx') if k in info}
+        if info['scenario'] == 'two_driver_names':
+            kw = {'drivers': ['clang', 'clang++']}
         if info['scenario'] == 'header_saved_during_compile':
             kw = {'real_compiler': info.get('compiler', 'gcc'), 'cxx': bool(info.get('cxx'))}
         c01_e2e.SCENARIOS[info['scenario']](int(info.get('sid', 0)), pipeline.repo_bin('sccache'), 28500, v, known_ids, **kw)
